@@ -12,6 +12,7 @@ from hypothesis import strategies as st
 
 from pbt.core import Part, Outcome, Violation
 from pbt import c13_ffmodel as M
+from pbt import c13_itp, c13_map, c13_mapping
 
 from vermouth.forcefield import ForceField
 from vermouth.ffinput import read_ff
@@ -26,12 +27,16 @@ RULE = ('ff-model: abstract .ff files with 0-3 blocks, 0-4 links, 0-2 modificati
         'layout and loaded by read_ff; compared with the model; non-trivial = at least 3 top-level sections of at least 2 kinds '
         'with a link that is not the last top-level section, or a macro defined in one section and used in a later one. '
         'ff-faults: each listed fault injected at a generated position of a valid file; non-trivial = the faulty line is not in '
-        'the first top-level section. ff-snippets: literal documented examples.')
+        'the first top-level section. ff-snippets: literal documented examples. '
+        + ' '.join([c13_itp.RULE_TEXT, c13_map.RULE_TEXT, c13_mapping.RULE_TEXT]))
 ASSUMPTIONS = [
     'block / modification names are unique within a file (a later definition of the same name replaces the earlier one by design)',
     'every reference to one link atom carries the same (or no) attributes, so the documented attribute-conflict error cannot trigger',
     'the SETTLE section is excluded from generated files (known finding F13)',
     'any exception raised by the loader counts as "rejected with an error"',
+    '.itp: atom ids are 1..n in file order (Gromacs requirement); one [ atoms ] section per moleculetype; no line continuation',
+    '.map: origin and target force fields are disjoint sets; molecule names are unique within a file; unknown sections are tolerated by design (the shipped data relies on it)',
+    '.mapping: per direction all fetched blocks are declared before the first extra node; every fetched block has a single residue; an omitted identifier is only used when unambiguous',
 ]
 
 EFFECTORS = {'dist': ParamDistance, 'angle': ParamAngle, 'dihedral': ParamDihedral, 'dihphase': ParamDihedralPhase}
@@ -406,6 +411,8 @@ def match_snippet(spec, part, case, violation):
 
 
 MATCHERS = {'snippet': match_snippet}
+for _mod in (c13_itp, c13_map, c13_mapping):
+    MATCHERS.update(getattr(_mod, 'MATCHERS', {}))
 
 PARTS = [
     Part('ff-model', run_model, strategy=M.file_strategy, examples={'quick': 1600, 'thorough': 60000},
@@ -413,4 +420,4 @@ PARTS = [
                  '#meta': 0.08, 'effector': 0.08, 'order-by-attribute': 0.08, 'patterns': 0.015, 'non-edges': 0.015}),
     Part('ff-faults', run_fault, strategy=strategy_fault, examples={'quick': 1200, 'thorough': 40000}),
     Part('ff-snippets', run_snippet, enumerate=_enum_snippets),
-]
+] + c13_itp.PARTS + c13_map.PARTS + c13_mapping.PARTS
